@@ -1,7 +1,7 @@
 (* C20 -- non-vacuity: concrete reachable states meet the hypotheses of the theorems,
    and the model does what one expects on concrete histories (tests, by vm_compute). *)
 From Coq Require Import List Arith Bool Lia.
-From Verif.C20 Require Import Model Proofs Faults.
+From Verif.C20 Require Import Model Proofs Faults Local.
 Import ListNotations.
 
 (* three processes on two forms, interleaved; 0 is killed while linking, 1 while Cython writes the .c *)
@@ -140,3 +140,31 @@ Example ex_crash_class :
   let st := apply_fault (run New orc_ref ex_s1 init) (FDmg So (Some Header)) in
   files st (Final So 0) = Partial Header 0 /\ orc_ref Header = Crash /\ ~ safe_fault orc_ref (FDmg So (Some Header)).
 Proof. vm_compute. repeat split. intros H. apply H. reflexivity. Qed.
+
+(* ---- locality (Local.v): hypotheses of fresh_request_outcome in a directory where ANOTHER form's entry is
+   cut to its header (dlopen would crash on it), the own entry is garbage, old-protocol left-overs lie around *)
+Definition ex_mixed : state :=
+  mkstate (fun y => match y with
+                    | Final So 0 => Partial Garbage 0
+                    | Final So 1 => Partial Header 1
+                    | Final So 2 => Complete 2
+                    | Final Pyx 0 => Partial Empty 0
+                    | Final Obj 1 => Partial Half 1
+                    | _ => Absent end) (fun _ => 0) 1 (fun _ => None).
+Example ex_mixed_hyps :
+  settled ex_mixed /\ (forall p, procs ex_mixed p = None -> forall r, files ex_mixed (Tmp p r) = Absent) /\
+  ~ final_ok orc_ref 1 (files ex_mixed (Final So 1)).
+Proof.
+  split; [|split].
+  - intros p q H. discriminate.
+  - intros p _ r. reflexivity.
+  - simpl. intros [H|[H _]]; discriminate.
+Qed.
+(* the three cases of the theorem, computed: rebuilt / dies / returned as it is *)
+Example ex_mixed_outcomes :
+  map (fun n => outcome_of (solo New orc_ref FUEL (step New orc_ref ex_mixed (Spawn 0 n)) 0) 0) [0; 1; 2]
+  = [Some (Ok 0); Some Death; Some (Ok 2)].
+Proof. vm_compute. reflexivity. Qed.
+Example ex_agree : agree 0 ex_mixed (forget_others 0 ex_mixed) /\
+  files (forget_others 0 ex_mixed) (Final So 1) = Absent.
+Proof. split; [apply agree_forget|reflexivity]. Qed.
